@@ -62,6 +62,18 @@ def api_witness(slice_, timeout):
         bad = [x for x in sp if q[x[1]:x[2] + 1].strip() != x[0].strip()]
         if bad:
             return {'state': 'counterexample', 'cex': {'w': kind}, 'detail': 'text differs from the slice: %r' % (bad,), 'queries': 1}
+    elif kind == 'F45':
+        from recognizers_date_time import recognize_datetime
+        rs = recognize_datetime('He has been China from 2019-aug-01 to today.', 'en-us', reference=datetime(2019, 1, 31))
+        bad = [v for r in rs for v in r.resolution['values'] if v.get('type') == 'daterange' and v.get('start') and v.get('end') and not v['start'] < v['end']]
+        if bad:
+            return {'state': 'counterexample', 'cex': {'w': kind}, 'detail': 'date range with start not before end: %r' % (bad,), 'queries': 1}
+    elif kind == 'F46':
+        from recognizers_date_time import recognize_datetime
+        rs = recognize_datetime('from 10:30 to 3', 'en-us', reference=datetime(2016, 11, 7))
+        bad = [v for r in rs for v in r.resolution['values'] if any(str(v.get(k, ''))[:2] > '23' for k in ('start', 'end'))]
+        if bad:
+            return {'state': 'counterexample', 'cex': {'w': kind}, 'detail': 'time range with an hour beyond 23: %r' % (bad,), 'queries': 1}
     elif kind == 'F37-overlap':
         from recognizers_date_time import recognize_datetime
         sp = _spans(recognize_datetime('明天三天后', 'zh-cn', reference=datetime(2016, 11, 7)))
